@@ -39,7 +39,10 @@ def rfindAux (ch : Char) : List Char → Nat → Option Nat → Option Nat
   | [], _, acc => acc
   | c :: cs, i, acc => rfindAux ch cs (i + 1) (if c = ch then some i else acc)
 
-/-- `(stem, suffix)` of a file name: split at the last dot unless it is the first or the last character. -/
+/-- `(stem, suffix)` of a file name (`Path(x).stem`, `Path(x).suffix`): split at the LAST dot only, unless that dot is
+the first or the last character.  So the stem is the name minus its last suffix and nothing more:
+`UnionType.orig.j2` has stem `UnionType.orig` (not a class name), `StructureType.j2.bak` has suffix `.bak` (filtered
+out), `.StructureType.j2` has stem `.StructureType`; case is preserved (`Properties: C16_stem_drops_last_suffix_only`). -/
 def splitExt (n : Name) : Name × Name :=
   match rfindAux '.' n 0 none with
   | some i => if 0 < i ∧ i + 1 < n.length then (n.take i, n.drop i) else (n, [])
@@ -200,14 +203,35 @@ def fsSource : List Store → Path → Option Nat
     | some v => some v
     | none => fsSource ds t
 
-/-- `DSDLTemplateLoader.get_source`; `none` = `TemplateNotFound`. -/
-def getSource (fs : Option (List Store)) (pkg : Option Store) (t : Path) : Option (Origin × Nat) :=
+/-- `DSDLTemplateLoader.get_source` for a name already in canonical form; `none` = `TemplateNotFound`.
+The code PROBES the file-system loader (try / except TemplateNotFound) — it does not consult a listing — so what
+counts is which files open: a file under a symbolic-linked sub-directory is not listed (followlinks off) but opens. -/
+def getSourceAt (fs : Option (List Store)) (pkg : Option Store) (t : Path) : Option (Origin × Nat) :=
   match fs.bind (fsSource · t) with
   | some v => some (.user, v)
   | none =>
     match pkg with
     | some s => (sfind s t).map fun v => (.builtin, v)
     | none => none
+
+/-- `template.split("/")`. -/
+def splitSlash : List Char → Name → List Name
+  | [], cur => [cur.reverse]
+  | c :: cs, cur => if c = '/' then cur.reverse :: splitSlash cs [] else splitSlash cs (c :: cur)
+
+/-- Jinja's `split_template_path`, joined again: empty pieces and `.` pieces are dropped (`./x`, `a//x`, `/x`, `x/`
+all name `x`), a `..` piece is refused (`none` = `TemplateNotFound`).  Both Jinja loaders apply it to the requested
+name, so the stores are keyed by canonical names. -/
+def canonicalName (t : Path) : Option Path :=
+  let ps := splitSlash t []
+  if ps.contains ['.', '.'] then none
+  else some (List.intercalate ['/'] (ps.filter fun p => p ≠ [] ∧ p ≠ ['.']))
+
+/-- `DSDLTemplateLoader.get_source(environment, template)` for a name as spelled in the request. -/
+def getSource (fs : Option (List Store)) (pkg : Option Store) (t : Path) : Option (Origin × Nat) :=
+  match canonicalName t with
+  | none => none
+  | some c => getSourceAt fs pkg c
 
 /-! ## Instance tests -/
 
